@@ -96,7 +96,26 @@ def c09_scripts(ctx):
     sc += handover_scripts(ctx, 300 if ctx.tier == "quick" else 12000)
     sc += lib.load_fuzz_corpus(ctx, 1500, "C09")
     sc += reqline_scripts(ctx, 150 if ctx.tier == "quick" else 3000)
+    sc += refusing_scripts(ctx, 40 if ctx.tier == "quick" else 800)
     return sc
+
+
+def refusing_scripts(ctx, n):
+    """callbacks that refuse several times IN A ROW (S45: REQ_IDLE ignored a refusing REQUEST_START callback and span, one new transaction per
+    refusal on the same byte): runs of STOP / ERROR answers starting at a random callback index, requests delivered in small pieces"""
+    rng = ctx.rng
+    out = []
+    for _ in range(n):
+        k0 = rng.choice((0, 0, 0, rng.randint(0, 12)))
+        m = rng.randint(2, 40)
+        act = rng.choice(("stop", "error"))
+        pol = ",".join("%d:%s" % (k0 + i, act) for i in range(m))
+        R = rng.choice((b"GET / HTTP/1.1\r\nHost: h\r\n\r\n", b"POST /p HTTP/1.1\r\nHost: h\r\nContent-Length: 3\r\n\r\nabcGET /2 HTTP/1.0\r\n\r\n"))
+        S = b"HTTP/1.1 200 OK\r\nContent-Length: 2\r\n\r\nok"
+        items = [">" + traffic.hx(p) for p in traffic.chunkings(R, rng, rng.choice(("bytes", "rand", "whole")))] + \
+                ["<" + traffic.hx(p) for p in traffic.chunkings(S, rng, rng.choice(("rand", "whole")))]
+        out.append(traffic.script("respdecomp=0", pol, items))
+    return out
 
 
 def c09_oracle(sc, outs):
@@ -117,6 +136,11 @@ def c09_oracle(sc, outs):
                 found.append(("data-other-consumed-all", "%s returned DATA_OTHER with consumed=%d of %d" % (op, c.consumed, c.length)))
             if c.rc in (DATA, DATA_OTHER) and c.consumed > c.length:
                 found.append(("consumed-gt-len", "%s consumed=%d of %d" % (op, c.consumed, c.length)))
+            # progress: a transaction is started by at least one byte of its own, so one call cannot start more transactions than it was
+            # offered bytes (S45: a refusing REQUEST_START callback made the loop start one transaction per pass on the same byte)
+            starts = sum(1 for e in c.events if e.name == ("request_start" if d == "req" else "response_start"))
+            if starts > max(c.length, 1):
+                found.append(("spin", "%s of %d byte(s) started %d transactions" % (op, c.length, starts)))
             if sticky[d] is not None:
                 if c.rc != sticky[d]:
                     found.append(("S8" if sticky[d] == STOP and sticky.get(d + "_closed") else "not-sticky",
